@@ -440,6 +440,75 @@ run_random(void)
 	free(m.body);
 }
 
+// --- huge mode: sizes near SIZE_MAX.  No such request can be satisfied, so
+// every one of them must fail with NNG_ENOMEM and leave the message as it was
+// (a "success" would claim a length or capacity that the storage cannot
+// have); the accounting allocator refuses anything above 2^40 bytes.
+static void
+run_huge(void)
+{
+	static const size_t inits[] = { 0, 1, 7, 31, 32, 33, 64, 1000, 1024, 4096 };
+	static const size_t below[] = { 0, 1, 2, 7, 8, 15, 16, 31, 32, 33, 47, 48, 63, 64, 65, 127, 128, 1023, 1024, 4095, 4096, 65535 };
+	static const char  *hops[]  = { "realloc", "reserve", "append", "insert", "alloc" };
+	model m;
+	long  c = 0;
+	m_init(&m);
+	for (size_t ii = 0; ii < sizeof(inits) / sizeof(inits[0]); ii++) {
+		for (int pre = 0; pre < 4; pre++) { // 0 none, 1 trim 3 (more headroom), 2 insert 8 (less), 3 chop+realloc smaller
+			for (int base = 0; base < 3; base++) { // SIZE_MAX - k, SIZE_MAX/2 + 1 + k, 2^62 + k
+				for (size_t bi = 0; bi < sizeof(below) / sizeof(below[0]); bi++) {
+					for (int op = 0; op < 5; op++, c++) {
+						if (!vf_want_case(c)) continue;
+						size_t k = below[bi];
+						size_t arg = base == 0 ? SIZE_MAX - k : base == 1 ? SIZE_MAX / 2 + 1 + k : ((size_t) 1 << 62) + k;
+						vf_case_begin(c, "huge init=%zu pre=%d %s(%zx)", inits[ii], pre, hops[op], arg);
+						nng_msg *msg = fresh(&m, inits[ii], (uint64_t) c);
+						bool     ok  = true;
+						if (pre == 1 && m.blen >= 3) ok = apply(&msg, &m, OP_TRIM, 3, 0, 1);
+						if (pre == 2) ok = apply(&msg, &m, OP_INSERT, 8, 0, 2);
+						if (pre == 3 && m.blen >= 2) ok = apply(&msg, &m, OP_CHOP, 1, 0, 3) && apply(&msg, &m, OP_REALLOC, m.blen / 2, 0, 4);
+						int rv = 0;
+						steps++;
+						if (ok) {
+							nng_msg *other = NULL;
+							switch (op) {
+							case 0: rv = nng_msg_realloc(msg, arg); break;
+							case 1: rv = nng_msg_reserve(msg, arg); break;
+							case 2: rv = nng_msg_append(msg, scratch, arg); break;
+							case 3: rv = nng_msg_insert(msg, scratch, arg); break;
+							case 4:
+								rv = nng_msg_alloc(&other, arg);
+								if (rv == 0) {
+									vf_violation("C17/huge/alloc-succeeded", "nng_msg_alloc(%zx) returned 0 with len %zu capacity %zu", arg, nng_msg_len(other), nng_msg_capacity(other));
+									nng_msg_free(other);
+								}
+								break;
+							}
+							if (rv != NNG_ENOMEM) {
+								char key[64];
+								snprintf(key, sizeof(key), "C17/huge/%s-returned-%d", hops[op], rv);
+								vf_violation(key, "%s(%zx) on a message of %zu bytes (capacity %zu) returned %d (%s); length now %zu capacity %zu", hops[op], arg, m.blen, nng_msg_capacity(msg), rv, nng_strerror(rv), nng_msg_len(msg), nng_msg_capacity(msg));
+							} else {
+								vf_class("huge/%s/%s/pre%d/base%d/enomem", hops[op], lencls(m.blen), pre, base);
+								if (compare(msg, &m, "huge request refused") && nng_msg_capacity(msg) < nng_msg_len(msg)) {
+									vf_violation("C17/capacity-below-length", "after refused %s: capacity %zu < length %zu", hops[op], nng_msg_capacity(msg), nng_msg_len(msg));
+								}
+								// and the message still works
+								(void) apply(&msg, &m, OP_APPEND, 5, 0, 5);
+							}
+						}
+						nng_msg_free(msg);
+						vf_stat("cases", 1);
+						vf_stat("huge_requests", 1);
+					}
+				}
+			}
+		}
+		vf_watchdog(120);
+	}
+	free(m.body);
+}
+
 int
 main(int argc, char **argv)
 {
@@ -447,6 +516,7 @@ main(int argc, char **argv)
 	vf_nng_init(2, 1, 1);
 	if (!strcmp(vf_mode, "exh3")) run_exhaustive(3);
 	else if (!strcmp(vf_mode, "exh4")) run_exhaustive(4);
+	else if (!strcmp(vf_mode, "huge")) run_huge();
 	else run_random();
 	vf_stat("steps", steps);
 	vf_nng_fini("C17");
